@@ -443,8 +443,22 @@ def gen_case(rng, tier='quick'):
         x0 = z + _unit(rng, n) * s * 10.0 ** rng.uniform(1, 3)
     tol = None if rng.random() < 0.5 else float(rng.choice([1e-4, 1e-6, 1e-8, 1e-12, 1e-14, 0.0], p=[.2, .2, .2, .15, .15, .1]))
     mi = None if rng.random() < 0.5 else int(rng.choice([1, 2, 5, 20, 300, 1000, 0], p=[.1, .1, .2, .2, .2, .15, .05]))
+    if mi is not None and mi < _MIN_MAX_ITER:
+        mi = _MIN_MAX_ITER          # only values the solver's own parameter table admits for dykstra.max_iters
     return dict(n=n, mode=mode, x0mode=xm, sets=[set_to_json(t) for t in sets], x0=_hx(x0),
                 tol=(None if tol is None else float(tol).hex()), max_iter=mi)
+
+
+def _table_lower_bound():
+    """lower bound of dykstra.max_iters in the parameter table of the tree under test (0 before the repair of F29, 1 after)"""
+    try:
+        from dfols.params import ParameterList
+        return int(ParameterList(2, 3, 10).param_type('dykstra.max_iters', 3)[2])
+    except Exception:
+        return 0
+
+
+_MIN_MAX_ITER = _table_lower_bound()
 
 
 # -------------------------------------------------------------------------------------------------------- checking
